@@ -153,6 +153,8 @@ impl<S: BuildHasher + Clone + 'static + Send> PolicyProcessor<S> {
     fn handle_items(&self, items: Result<Vec<u64>, RecvError>) {
         match items {
             Ok(items) => {
+                #[cfg(transparencies_stretto_verif)]
+                crate::verif::sched::point("policy:before_apply");
                 let mut inner = self.inner.lock();
                 #[cfg(transparencies_stretto_verif)]
                 crate::verif::applied(&items);
